@@ -6,7 +6,7 @@ from typing import Any, Callable, Union, final
 
 from ..common import Coercer, OneArgCoercer, TypeHint
 from ..morphing.utils import try_normalize_type
-from ..provider.essential import CannotProvide, Mediator
+from ..provider.essential import AggregateCannotProvide, CannotProvide, Mediator
 from ..provider.loc_stack_filtering import LocStackChecker
 from ..provider.location import GenericParamLoc
 from ..special_cases_optimization import as_is_stub, as_is_stub_with_ctx
@@ -180,13 +180,18 @@ class TypeHintTagsUnwrappingProvider(CoercerProvider):
         unwrapped_dst_tp = self._unwrap_type(dst_tp)
         if unwrapped_src_tp == src_tp and unwrapped_dst_tp == dst_tp:
             raise CannotProvide
-        return mediator.delegating_provide(
-            replace(
-                request,
-                src=request.src.replace_last_type(unwrapped_src_tp),
-                dst=request.dst.replace_last_type(unwrapped_dst_tp),
-            ),
-        )
+        try:
+            return mediator.provide(
+                replace(
+                    request,
+                    src=request.src.replace_last_type(unwrapped_src_tp),
+                    dst=request.dst.replace_last_type(unwrapped_dst_tp),
+                ),
+            )
+        except CannotProvide as e:
+            # tags are transparent: a final refusal of the unwrapped pair (e.g. a nested model with an unlinked field)
+            # is final for the tagged pair too, otherwise SameTypeCoercerProvider would pass the value as is
+            raise AggregateCannotProvide("", [e], is_terminal=e.is_terminal) from None
 
 
 class IterableCoercerProvider(NormTypeCoercerProvider):
